@@ -72,13 +72,14 @@ def parseView (j : Json) : Except String ViewDecl := do
   let tag ← (← j.getObjVal? "tag").getNat?
   let body ← parseBody (← j.getObjVal? "body")
   let pn ← (← j.getObjVal? "permname").getNat?
-  pure ⟨⟨rq, cx, name, preds, none, perm, isexc, xonly, tag, body⟩, pn⟩
+  pure ⟨⟨rq, cx, name, preds, none, perm, isexc, xonly, tag, body, false⟩, pn⟩
 
 def parseWorld (j : Json) : Except String ExcView.World := do
   let e := fun (f : String) => do parseExc (← j.getObjVal? f)
   pure { sec := ⟨← (← j.getObjVal? "policy").getBool?, ← (← j.getObjVal? "defperm").getBool?⟩,
          notFound := ← e "nf", mismatch := ← e "mm", forbidden := ← e "fb",
-         excNotFound := ← e "xnf", excMismatch := ← e "xmm", excForbidden := ← e "xfb" }
+         excNotFound := ← e "xnf", excMismatch := ← e "xmm", excForbidden := ← e "xfb",
+         viewResponse := 0 }
 
 def parseKey (j : Json) : Except String CtxKey :=
   match j with
